@@ -272,7 +272,7 @@ def interval_Extract (list : (List interval_Interval)) : Option (List Int) := do
     | GoSem.Flow.next extList =>
       pure extList
 
-/-- interval/interval.go:499 -/
+/-- interval/interval.go:463 -/
 def interval_IntervalListByNumList (nums : (List Int)) (minCount : Int) : Option (List interval_Interval) := do
   let list ← (GoSem.mkCap (α := interval_Interval) ((nums).length : Int))
   let tmpNums ← (GoSem.mkCap (α := Int) ((nums).length : Int))
@@ -953,7 +953,7 @@ def interval_Extract_chk (list : (List interval_Interval)) : Option (List Int) :
     | GoSem.Flow.next extList =>
       pure extList
 
-/-- interval/interval.go:499 -/
+/-- interval/interval.go:463 -/
 def interval_IntervalListByNumList_chk (nums : (List Int)) (minCount : Int) : Option (List interval_Interval) := do
   let list ← (GoSem.mkCap (α := interval_Interval) ((nums).length : Int))
   let tmpNums ← (GoSem.mkCap (α := Int) ((nums).length : Int))
